@@ -5,7 +5,7 @@ from typing import Any
 
 from autobean_refactor.models import base
 
-from vf.gen import ledger as L, ops as OPS
+from vf.gen import ledger as L, ops as OPS, sweeps
 from vf.obs import core as O
 from vf.props import common
 from vf.run import Job, Result
@@ -91,4 +91,5 @@ def _build(tier: str):
 
 
 def jobs(tier: str) -> list[Job]:
-    return [Job('histories', 'hyp', lambda: _build(tier), 2500 if tier == 'quick' else 120000)]
+    return [Job('histories', 'hyp', lambda: _build(tier), 2500 if tier == 'quick' else 120000),
+            Job('list-sweep', 'enum', sweeps.list_sweep, exhaustive=True)]
